@@ -179,6 +179,20 @@ func c10ResCode(s string) int {
 func c10RunPool(in c10PIn) (obs c10PObs) {
 	c10Install.Do(func() { fnSendRequest = c10Transport })
 	c10BuildMu.Lock()
+	locked := true
+	defer func() {
+		// a configuration the real validation rejects (only possible for hand-written
+		// replay inputs): report every request as "other" instead of crashing
+		if r := recover(); r != nil {
+			if locked {
+				c10BuildMu.Unlock()
+			}
+			obs = c10PObs{Cbt: -1, Cbf: -1}
+			for range in.Reqs {
+				obs.Outs = append(obs.Outs, c10POut{Res: 9, Gaps: []int64{}})
+			}
+		}
+	}()
 
 	pool := map[string]interface{}{
 		"servers": []interface{}{map[string]interface{}{"url": "http://127.0.0.1:9095"}},
@@ -231,6 +245,7 @@ func c10RunPool(in c10PIn) (obs c10PObs) {
 	defer px.Close()
 	px.InjectResiliencePolicy(policies)
 	c10BuildMu.Unlock()
+	locked = false
 
 	for _, rq := range in.Reqs {
 		obs.Outs = append(obs.Outs, c10Serve(px, in, rq))
